@@ -21,7 +21,16 @@ def main(args, decide_fn, props):
     seeded = sorted(glob.glob(os.path.join(VERIF, "seeded", "*", "meta.json")))
     bad = 0
     n = 0
+    done = set()
+    if os.environ.get("VERIF_SELFTEST_SKIP") and os.path.exists(os.environ["VERIF_SELFTEST_SKIP"]):
+        for l in open(os.environ["VERIF_SELFTEST_SKIP"]):
+            ps = l.split()
+            if len(ps) >= 2 and ps[0] in ("CAUGHT", "QUIET"):
+                done.add(ps[1])
     for mj in muts + seeded:
+        nm = os.path.basename(mj)[:-5] if not mj.endswith("meta.json") else "seeded/" + os.path.basename(os.path.dirname(mj))
+        if nm in done:
+            continue
         meta = json.load(open(mj))
         prop = meta.get("property") or meta.get("breaks")
         if args and prop not in args and os.path.basename(os.path.dirname(mj)) not in args and os.path.basename(mj)[:-5] not in args:
@@ -37,7 +46,9 @@ def main(args, decide_fn, props):
                 print("MUTANT-DOES-NOT-APPLY %s: %s" % (patch, p.stdout[-300:]))
                 bad += 1
                 continue
-            rc, lines, rep = decide_fn(prop, "quick", repo=dst, write_evidence=False, quiet=True)
+            touched = sorted(set("./" + os.path.dirname(l[6:].strip().split("\t")[0]) for l in open(patch) if l.startswith("+++ b/") and l[6:].strip().split("\t")[0].endswith(".go")))
+            only = touched if prop in ("C11", "C12", "C13", "C18") and touched and all(t.startswith("./streams") for t in touched) else None
+            rc, lines, rep = decide_fn(prop, "quick", repo=dst, write_evidence=False, quiet=True, only_pkgs=only)
             viol = [l for l in lines if l.startswith("VIOLATION")]
             exp = meta.get("expect", "")
             ok = rc == 1 and any(re.search(exp, l) for l in viol)
